@@ -34,6 +34,7 @@ def rewrite (ov : Nat → Option Hint) : Hint → Hint
   | .mapping o k v => .mapping o (rewrite ov k) (rewrite ov v)
   | .typeOf cs => .typeOf cs
   | .annotated h vs => .annotated (rewrite ov h) vs
+  | .generic c bs => .generic c (rewriteList ov bs)
 def rewriteList (ov : Nat → Option Hint) : List Hint → List Hint
   | [] => []
   | h :: hs => rewrite ov h :: rewriteList ov hs
@@ -50,6 +51,7 @@ def flattenU : Hint → Hint
   | .quasi o h => .quasi o (flattenU h)
   | .mapping o k v => .mapping o (flattenU k) (flattenU v)
   | .annotated h vs => .annotated (flattenU h) vs
+  | .generic c bs => .generic c (flattenList bs)
   | h => h
 /-- members of a union, nested unions spliced in -/
 def flattenMembers : List Hint → List Hint
@@ -106,6 +108,7 @@ theorem C18_flatten_chk : ∀ (h : Hint) (x : Obj), chk W conf r (flattenU h) x 
       | none => simp [C18_flatten_chk k k0]
       | some v0 => simp [C18_flatten_chk k k0, C18_flatten_chk v v0]
   | .annotated h vs, x => by simp [flattenU, chk, C18_flatten_chk h x]
+  | .generic c bs, x => by simp only [flattenU, chk]; rw [flattenList_chkEvery bs x]
 theorem flattenMembers_chk : ∀ (hs : List Hint) (x : Obj),
     chkAny W conf r (flattenMembers hs) x = chkAny W conf r hs x
   | [], _ => rfl
@@ -126,11 +129,17 @@ theorem flattenMembers_chk : ∀ (hs : List Hint) (x : Obj),
     simp only [flattenMembers, chkAny]; rw [C18_flatten_chk (.mapping o k v) x, flattenMembers_chk hs x]
   | .annotated g vs :: hs, x => by
     simp only [flattenMembers, chkAny]; rw [C18_flatten_chk (.annotated g vs) x, flattenMembers_chk hs x]
+  | .generic c bs :: hs, x => by
+    simp only [flattenMembers, chkAny]; rw [C18_flatten_chk (.generic c bs) x, flattenMembers_chk hs x]
 theorem flattenList_chk : ∀ (hs : List Hint) (ys : List Obj),
     chkZip W conf r (flattenList hs) ys = chkZip W conf r hs ys
   | [], _ => by simp [flattenList, chkZip]
   | _ :: _, [] => by simp [flattenList, chkZip]
   | h :: hs, y :: ys => by simp [flattenList, chkZip, C18_flatten_chk h y, flattenList_chk hs ys]
+theorem flattenList_chkEvery : ∀ (hs : List Hint) (x : Obj),
+    chkEvery W conf r (flattenList hs) x = chkEvery W conf r hs x
+  | [], _ => by simp [flattenList, chkEvery]
+  | h :: hs, x => by simp [flattenList, chkEvery, C18_flatten_chk h x, flattenList_chkEvery hs x]
 theorem flattenList_length : ∀ (hs : List Hint), (flattenList hs).length = hs.length
   | [] => rfl
   | _ :: hs => by simp [flattenList, flattenList_length hs]
